@@ -502,7 +502,7 @@ def run_get_cells(S, search_type, which, exact, limit_value, with_data, nrows=2)
         x = deref(ex, a[0]) if isinstance(a[0], RefV) else a[0]
         y = deref(ex, a[1]) if isinstance(a[1], RefV) else a[1]
         nx, ny = getattr(x, "name", "?"), getattr(y, "name", "?")
-        m = re.fullmatch(r"row(\d+)_key", nx)
+        m = re.match(r"row(\d+)_key", nx)
         if m:
             prefixes.add(ny)
             return BoolV(inpre[int(m.group(1))].t)
